@@ -1,6 +1,7 @@
 package main
 
 import (
+	"bytes"
 	"encoding/json"
 	"fmt"
 	"net/http"
@@ -124,11 +125,18 @@ func decodeRecord(data []byte) decResult {
 	}()
 	select {
 	case r := <-ch:
+		if r.alloc > 1<<28 {
+			codecAbort = true // a decoder that allocates by the untrusted length prefix: a few cases are evidence enough
+		}
 		return r
 	case <-time.After(20 * time.Second):
+		codecAbort = true
 		return decResult{timedOut: true, err: "TIMEOUT"}
 	}
 }
+
+// set when a decode hung or allocated without bound: the remaining cases are skipped (each would cost seconds)
+var codecAbort bool
 
 func headerEq(a, b http.Header) bool {
 	if len(a) != len(b) {
@@ -207,6 +215,9 @@ func suiteCodec(r *rng, n int) {
 			resp.RawBody = genBody(cr, maxBody)
 		case 1:
 			resp.GzipBody = genBody(cr, maxBody)
+			if cr.chance(50) {
+				resp.GzipBody = encGzip(genBody(cr, maxBody)) // a real gzip stream: the identity body is derived from it
+			}
 		case 2:
 			resp.BrBody = genBody(cr, maxBody)
 		default:
@@ -278,6 +289,12 @@ func suiteCodec(r *rng, n int) {
 					if d.age != 0 {
 						rt = "age"
 					}
+					// the decoded entry must BEHAVE like the original: the identity body a client without gzip/br gets
+					rawA, errA := d.resp.GetRawBody()
+					rawB, errB := resp.GetRawBody()
+					if (errA == nil) != (errB == nil) || !bytes.Equal(rawA, rawB) {
+						rt = "behaviour:identity-body"
+					}
 				}
 			}
 		} else {
@@ -305,10 +322,10 @@ func suiteCodec(r *rng, n int) {
 	if nt > n/20+3 {
 		nt = n/20 + 3
 	}
-	for i := 0; i < nt && i < len(records); i++ {
+	for i := 0; i < nt && i < len(records) && !codecAbort; i++ {
 		data := records[i]
 		var sb strings.Builder
-		for k := 0; k < len(data); k++ {
+		for k := 0; k < len(data) && !codecAbort; k++ {
 			d := decodeRecord(data[:k])
 			switch {
 			case d.panicked:
@@ -325,7 +342,7 @@ func suiteCodec(r *rng, n int) {
 		emit("codec", "trunc", itoa(int64(i)), hxb(data), hx(recordJ[i]), hx(recordF[i]), "=>", sb.String())
 	}
 	// mutations
-	for i := 0; i < n && len(records) > 0; i++ {
+	for i := 0; i < n && len(records) > 0 && !codecAbort; i++ {
 		cr := r.fork(uint64(1_000_000 + i))
 		ri := cr.intn(len(records))
 		data := append([]byte(nil), records[ri]...)
